@@ -75,4 +75,119 @@ theorem inv_cb_credits {c : Ctx} {s : Store} {chain : List Block} {b : Block} (h
   rw [hI.agree.credits]
   exact this
 
+-- ------------------------------------------------------------------ BR2: connect, the relevance records
+
+/-- `t` pays an owned address, or (not a coinbase) spends an owned output of a transaction among `txs` -/
+def RelAmong (own : Own) (txs : List Tx) (t : Tx) : Prop :=
+  (∃ o ∈ t.outs, (ownerOf own o).isSome = true) ∨
+  (t.cb = false ∧ ∃ i ∈ t.ins, ∃ p ∈ txs, p.id = i.tx ∧ ∃ o, p.outs[i.idx]? = some o ∧ (ownerOf own o).isSome = true)
+
+def chainTxs (chain : List Block) : List Tx := chain.flatMap (·.txs)
+
+/-- the same over occurrences -/
+def RelOcc (own : Own) (Q : List Occ) (t : Tx) : Prop :=
+  (∃ o ∈ t.outs, (ownerOf own o).isSome = true) ∨
+  (t.cb = false ∧ ∃ i ∈ t.ins, ∃ q ∈ Q, q.t.id = i.tx ∧ ∃ o, q.t.outs[i.idx]? = some o ∧ (ownerOf own o).isSome = true)
+
+theorem mem_chainTxs {chain : List Block} {t : Tx} : t ∈ chainTxs chain ↔ ∃ oc ∈ occs chain, oc.t = t := by
+  unfold chainTxs
+  rw [List.mem_flatMap]
+  constructor
+  · rintro ⟨b, hb, ht⟩
+    obtain ⟨oc, hoc, h1, -⟩ := occ_of_mem_block ht
+    exact ⟨oc, mem_occs.2 ⟨b, hb, hoc⟩, h1⟩
+  · rintro ⟨oc, hoc, rfl⟩
+    obtain ⟨b, hb, ht, -⟩ := occ_block hoc
+    exact ⟨b, hb, ht⟩
+
+theorem relAmong_iff_relOcc {own : Own} {chain : List Block} {t : Tx} :
+    RelAmong own (chainTxs chain) t ↔ RelOcc own (occs chain) t := by
+  unfold RelAmong RelOcc
+  constructor
+  · rintro (h | ⟨hcb, i, hi, p, hp, hid, o, ho, hown⟩)
+    · exact Or.inl h
+    · obtain ⟨q, hq, rfl⟩ := mem_chainTxs.1 hp
+      exact Or.inr ⟨hcb, i, hi, q, hq, hid, o, ho, hown⟩
+  · rintro (h | ⟨hcb, i, hi, q, hq, hid, o, ho, hown⟩)
+    · exact Or.inl h
+    · exact Or.inr ⟨hcb, i, hi, q.t, mem_chainTxs.2 ⟨q, hq, rfl⟩, hid, o, ho, hown⟩
+
+/-- a valid transaction that is relevant w.r.t. the transactions around it touches the running books -/
+theorem touches_of_relOcc {own : Own} {P Q : List Occ} {B : Book} {oc : Occ} (hG : Glob own P B)
+    (hV : OccValid own P oc) (hsub : ∀ q ∈ P, q ∈ Q) (hn : (idsOf Q).Nodup) (hR : RelOcc own Q oc.t) :
+    touches own B oc.t = true := by
+  unfold touches
+  rcases hR with ⟨o, ho, hown⟩ | ⟨hcb, i, hi, q, hq, hid, o, ho, hown⟩
+  · rw [Bool.or_eq_true]; right
+    exact List.any_eq_true.2 ⟨o, ho, hown⟩
+  · rw [Bool.or_eq_true]; left
+    rw [hcb]
+    simp only [Bool.not_false, Bool.true_and]
+    refine List.any_eq_true.2 ⟨i, hi, ?_⟩
+    obtain ⟨o', ho'⟩ := Option.isSome_iff_exists.1 (hV.2.1 hcb i hi)
+    obtain ⟨oc0, h0, hid0, hout0⟩ := srcOut_some_find ho'
+    have hq0 : q = oc0 := occ_eq_of_id hn hq (hsub oc0 h0) (hid.trans hid0.symm)
+    subst hq0
+    rw [ho] at hout0
+    have hoo : o = o' := by simpa using hout0
+    subst hoo
+    obtain ⟨wc, hwc⟩ := Option.isSome_iff_exists.1 hown
+    obtain ⟨k, hk⟩ := List.getElem?_of_mem hi
+    have hc : CreatedIn own P ⟨wc.1, i.tx, i.idx, q.bm, q.t.cb, o, wc.2⟩ :=
+      ⟨q, h0, hid, ho, hwc, rfl, rfl⟩
+    rw [char_hit_of_created hG hV hc hcb hk rfl]
+    rfl
+
+/-- the records cover every relevant transaction -/
+theorem matches_cover {p : Params} {own : Own} :
+    ∀ (ocs : List Occ) (P : List Occ) (B : Book) (recs : List TxRec),
+      Matches p own B ocs recs → Glob own P B → ValidFrom own P ocs →
+      ∀ oc ∈ ocs, RelOcc own (P ++ ocs) oc.t → ∃ tr ∈ recs, tr.tx = oc.t := by
+  intro ocs
+  induction ocs with
+  | nil => intro P B recs _ _ _ oc h; cases h
+  | cons x rest ih =>
+    intro P B recs hM hG hV oc hoc hR
+    have hn : (idsOf (P ++ x :: rest)).Nodup := (glob_fold (p := p) hG hV).idsNodup
+    obtain ⟨hV1, hV2⟩ := hV
+    have hG' := glob_step (p := p) hG hV1
+    unfold Matches at hM
+    have hassoc : (P ++ [x]) ++ rest = P ++ x :: rest := by simp
+    rcases List.mem_cons.1 hoc with rfl | hoc'
+    · have ht : touches own B oc.t = true :=
+        touches_of_relOcc hG hV1 (fun q hq => List.mem_append_left _ hq) hn hR
+      simp only [ht, if_true] at hM
+      obtain ⟨tr, recs', hrecs, hok, -⟩ := hM
+      exact ⟨tr, by rw [hrecs]; exact List.mem_cons_self .., hok.1⟩
+    · by_cases ht : touches own B x.t = true
+      · simp only [ht, if_true] at hM
+        obtain ⟨tr, recs', hrecs, -, hM'⟩ := hM
+        obtain ⟨tr', h1, h2⟩ := ih _ _ recs' hM' hG' hV2 oc hoc' (by rw [hassoc]; exact hR)
+        exact ⟨tr', by rw [hrecs]; exact List.mem_cons_of_mem _ h1, h2⟩
+      · simp only [ht, if_false] at hM
+        exact ih _ _ recs hM hG' hV2 oc hoc' (by rw [hassoc]; exact hR)
+
+/-- BR2: the relevance records of `filterTxs` cover every transaction of the block that pays an owned address
+    or spends an owned output of the chain (including the block itself) -/
+theorem inv_cover {c : Ctx} {s : Store} {chain rest : List Block} {b : Block} {ready : List Wid} {recs : List TxRec}
+    (hI : Inv c s chain) (hnode : c.node.chain = chain ++ b :: rest) (hvalid : ChainValid c.own c.node.chain)
+    (hAR : AllReady c.own ready)
+    (hf : filterTxs c s ready b.id b.txs [] 0 [] = .ok recs) :
+    ∀ u ∈ b.txs, RelAmong c.own (chainTxs (chain ++ [b])) u → ∃ tr ∈ recs, tr.tx = u := by
+  have hvc : ChainValid c.own chain :=
+    chainValid_prefix (a := chain) (b := b :: rest) (by rw [← hnode]; exact hvalid)
+  have hG := glob_bookOf (p := c.p) hvc
+  have F : FilterCtx c s ready chain rest b (bookOf c.p c.own chain) :=
+    ⟨hnode, hvalid, hAR, hG, hI.agree.credits⟩
+  have hVb := F.valid_block
+  obtain ⟨recs', hf', hM⟩ := filterTxs_block F hVb
+  rw [hf] at hf'
+  have hrr : recs = recs' := by injection hf'
+  subst hrr
+  intro u hu hR
+  obtain ⟨oc, hoc, ht, -⟩ := occ_of_mem_block hu
+  rw [relAmong_iff_relOcc, occs_append, occs_singleton] at hR
+  obtain ⟨tr, h1, h2⟩ := matches_cover _ _ _ _ hM hG hVb oc hoc (by rw [ht]; exact hR)
+  exact ⟨tr, h1, h2.trans ht⟩
+
 end MW.Lemmas.PendHist
